@@ -200,6 +200,7 @@ type World struct {
 	Node   *graphql.Interface
 	U      *graphql.Union
 	Solo   *graphql.Union // an abstract type with exactly one possible type
+	FC     *graphql.Union // First | Catch: no ResolveType, and Catch's IsTypeOf also accepts what First accepts
 	Kind   *graphql.Enum
 	Stamp  *graphql.Scalar
 	// SubSource is returned by the Subscribe resolver of Subscription.events
@@ -447,6 +448,24 @@ func NewWorld(id string, exts ...graphql.Extension) *World {
 		Name:  "Solo",
 		Types: []*graphql.Object{w.Obj["B"]},
 	})
+	// FC = First | Catch without a type resolver: the library asks the IsTypeOf
+	// functions in declaration order and takes the first that accepts. Catch is a
+	// catch-all that also accepts First values, so the answer depends on that
+	// order (and on nothing else: no history, no earlier value).
+	fcFields := func() graphql.Fields {
+		return graphql.Fields{
+			"id":    &graphql.Field{Type: graphql.NewNonNull(graphql.ID)},
+			"title": &graphql.Field{Type: graphql.String},
+			"kind":  &graphql.Field{Type: w.Kind},
+		}
+	}
+	mkObj("First", nil, true, fcFields)
+	mkObj("Catch", nil, true, fcFields)
+	w.FC = graphql.NewUnion(graphql.UnionConfig{
+		Name:  "FC",
+		Types: []*graphql.Object{w.Obj["First"], w.Obj["Catch"]},
+	})
+	w.Possible["FC"] = []string{"First", "Catch"}
 	w.Possible["Solo"] = []string{"B"}
 	w.Possible["Node"] = []string{"A", "B", "C"}
 	w.Possible["U"] = []string{"A", "B"}
@@ -539,6 +558,8 @@ func NewWorld(id string, exts ...graphql.Extension) *World {
 			"nodes":    &graphql.Field{Type: graphql.NewList(w.Node), Args: graphql.FieldConfigArgument{"n": &graphql.ArgumentConfig{Type: graphql.Int, DefaultValue: 2}, "as": &graphql.ArgumentConfig{Type: graphql.String}}},
 			"u":        &graphql.Field{Type: w.U, Args: graphql.FieldConfigArgument{"as": &graphql.ArgumentConfig{Type: graphql.String}}},
 			"solo":     &graphql.Field{Type: w.Solo},
+			"fc":       &graphql.Field{Type: w.FC, Args: graphql.FieldConfigArgument{"as": &graphql.ArgumentConfig{Type: graphql.String}}},
+			"fcs":      &graphql.Field{Type: graphql.NewList(w.FC), Args: graphql.FieldConfigArgument{"n": &graphql.ArgumentConfig{Type: graphql.Int, DefaultValue: 2}, "as": &graphql.ArgumentConfig{Type: graphql.String}}},
 			"a":        &graphql.Field{Type: w.Obj["A"]},
 			"b":        &graphql.Field{Type: w.Obj["B"]},
 			"c":        &graphql.Field{Type: w.Obj["C"]},
@@ -653,7 +674,7 @@ func NewWorld(id string, exts ...graphql.Extension) *World {
 // dropped again). A value resolving to D is a possible type of Node in the one
 // schema and an error in the other.
 func (w *World) Retyped() *World {
-	n := &World{ID: w.ID, Obj: w.Obj, Node: w.Node, U: w.U, Solo: w.Solo, Kind: w.Kind, Stamp: w.Stamp, SubSource: w.SubSource,
+	n := &World{ID: w.ID, Obj: w.Obj, Node: w.Node, U: w.U, Solo: w.Solo, FC: w.FC, Kind: w.Kind, Stamp: w.Stamp, SubSource: w.SubSource,
 		Possible: w.Possible, PanicLiteral: w.PanicLiteral, GateScalars: w.GateScalars, WithD: !w.WithD}
 	cfg := w.cfg
 	cfg.Types = []graphql.Type{w.Obj["A"], w.Obj["B"], w.Obj["C"]}
@@ -967,11 +988,12 @@ func (w *World) isTypeOf(p graphql.IsTypeOfParams, name string) bool {
 			}
 		}
 	}
+	accepts := func(t string) bool { return t == name || (name == "Catch" && t == "First") }
 	switch t := p.Value.(type) {
 	case Tok:
-		return t.T == name
+		return accepts(t.T)
 	case *Tok:
-		return t != nil && t.T == name
+		return t != nil && accepts(t.T)
 	}
 	return false
 }
@@ -1174,7 +1196,7 @@ func plainRecTagged() interface{} {
 
 // NewWorldPossible returns the abstract-type table of the simulated schema.
 func NewWorldPossible() map[string][]string {
-	return map[string][]string{"Node": {"A", "B", "C"}, "U": {"A", "B"}, "Solo": {"B"}}
+	return map[string][]string{"Node": {"A", "B", "C"}, "U": {"A", "B"}, "Solo": {"B"}, "FC": {"First", "Catch"}}
 }
 
 // plainFieldResolver is a source that resolves its own fields (graphql.FieldResolver)
